@@ -62,6 +62,14 @@ class TokenTypes(Enum):
     WAIT = auto()
     ZONE = auto()
 
+    def is_internal(self):
+        # Token classes assigned by the lexer, never spelled out in a script.
+        return self in (TokenTypes.COMPARE, TokenTypes.EOF, TokenTypes.ERROR,
+            TokenTypes.LITERAL_STRING, TokenTypes.MARK, TokenTypes.NAME,
+            TokenTypes.NULL, TokenTypes.NUMBER, TokenTypes.REGISTER,
+            TokenTypes.SYNTAX_ERROR, TokenTypes.TIME_PATTERN,
+            TokenTypes.UNKNOWN)
+
     def has_string(self):
         return self in (TokenTypes.ERROR, TokenTypes.LITERAL_STRING,
             TokenTypes.MARK, TokenTypes.NAME, TokenTypes.NUMBER,
